@@ -169,7 +169,11 @@ def run_cases(cases, total_timeout):
                 r[k] = bool(z3.is_true(model.eval(v.e, model_completion=True)))
             elif isinstance(v, z3.ExprRef):
                 mv = model.eval(v, model_completion=True)
-                r[k] = mv.as_long() if z3.is_int_value(mv) else (z3.is_true(mv) if z3.is_bool(mv) else str(mv))
+                if z3.is_string_value(mv):
+                    import re as _re
+                    r[k] = _re.sub(r"\\u\{([0-9a-fA-F]+)\}", lambda m_: chr(int(m_.group(1), 16)), mv.as_string())
+                else:
+                    r[k] = mv.as_long() if z3.is_int_value(mv) else (z3.is_true(mv) if z3.is_bool(mv) else str(mv))
             elif isinstance(v, (list, tuple)):
                 r[k] = [conc({"x": x}, model)["x"] for x in v]
             elif isinstance(v, dict):
